@@ -32,3 +32,4 @@ def run(ctx, R):
     genreset.rule_gen_reset(ctx, R, 'x86')
     x86hsem.rule_hsem(ctx, R)
     x86hsem.rule_mem_hsem(ctx, R)
+    jit.rule_lw_value(ctx, R, 'x86')
